@@ -168,6 +168,11 @@ def World.construct (w : World) (kind : ObsKind) (tag : Nat := 0) : World × Opt
     let id := w.heap.length
     ({ w with subs := w.subs ++ [id], heap := w.heap ++ [Obs.construct w.cfg w.s kind tag] }, some id)
 
+/-- `Kind(dispatcher, subscribe=False)`: the singleton check still runs, the new observer is NOT subscribed -/
+def World.constructDetached (w : World) (kind : ObsKind) (tag : Nat := 0) : World × Option Nat :=
+  if kind.singleton && w.subs.any (fun id => (w.heap[id]?.map (·.kind)) == some kind) then (w, none)
+  else ({ w with heap := w.heap ++ [Obs.construct w.cfg w.s kind tag] }, some w.heap.length)
+
 /-- `dispatcher.unsubscribe(observer)`: `list.remove` (raises `ValueError` when absent) -/
 def World.unsubscribe (w : World) (id : Nat) : World × Bool :=
   if w.subs.contains id then ({ w with subs := w.subs.erase id }, true) else (w, false)
@@ -200,6 +205,7 @@ inductive WEv
   | query (q : Query)
   | construct (k : ObsKind)
   | constructTagged (k : ObsKind) (tag : Nat)
+  | constructDetached (k : ObsKind)
   | createOrGet (k : ObsKind)
   | createOrGetCond (k : ObsKind) (tag : Nat)
   | unsub (id : Nat)
@@ -212,6 +218,7 @@ def World.step (w : World) : WEv → World
   | .query q => (w.ask q).1
   | .construct k => (w.construct k).1
   | .constructTagged k t => (w.construct k t).1
+  | .constructDetached k => (w.constructDetached k).1
   | .createOrGet k => (w.createOrGet k).1
   | .createOrGetCond k t => (w.createOrGetCond k t).1
   | .unsub id => (w.unsubscribe id).1
